@@ -343,6 +343,22 @@ class ListEnv:
         return list(self.interactions)
 
 
+E2E_UNSET = "unset"
+
+
+def e2e_seeds(case):
+    """(what SequentialCB is given as seed, what CobaContext.store['experiment_seed'] holds or E2E_UNSET, the seed that must take
+    effect): the evaluator's own seed whenever it is not None - also when it is 0, 0.0 or False - else the experiment seed"""
+    es = case.get("e2e_seed")
+    if not es:
+        ev = 1 if case.get("seed") is None else case["seed"]
+        return ev, E2E_UNSET, ev
+    ev = None if es.get("ev") is None else dec(es["ev"])
+    exp = es.get("exp", E2E_UNSET)
+    eff = ev if ev is not None else (None if exp == E2E_UNSET else exp)
+    return ev, exp, eff
+
+
 def run_e2e(case):
     """the same learner behind the real evaluator: SequentialCB(learn='on', eval='on', seed).evaluate(environment, learner)"""
     from coba.evaluators import SequentialCB
@@ -350,28 +366,60 @@ def run_e2e(case):
     from coba.environments import Batch
     from coba.context import CobaContext, NullLogger
     old = CobaContext._logger
+    old_store = CobaContext.store
     CobaContext.logger = NullLogger()
     try:
         rows = [r for call in case["calls"] for r in call]
         its = [SimulatedInteraction(dec(r["ctx"]), [dec(a) for a in r["actions"]], [0.25 * (j + 1) for j in range(len(r["actions"]))]) for r in rows]
         if case.get("batch"):
             its = list(Batch(len(case["calls"][0])).filter(its))
+        ev_seed, exp, _ = e2e_seeds(case)
+        CobaContext.store = {} if exp == E2E_UNSET else {"experiment_seed": exp}
         learner = Scripted(case)
-        ev = SequentialCB(record=["action", "probability", "reward"], learn="on", eval="on", seed=1 if case.get("seed") is None else case["seed"])
+        ev = SequentialCB(record=["action", "probability", "reward"], learn="on", eval="on", seed=ev_seed)
         try:
             res = list(ev.evaluate(ListEnv(its), learner))
         except Exception as e:
             return learner, e
+        if case.get("e2e_seed"):
+            # a second evaluation by an equally configured evaluator (a fresh learner): same seed, same draws
+            try:
+                learner.again = list(SequentialCB(record=["action", "probability", "reward"], learn="on", eval="on", seed=ev_seed).evaluate(ListEnv(its), Scripted(case)))
+            except Exception as e:
+                learner.again = e
         return learner, res
     finally:
         CobaContext._logger = old
+        CobaContext.store = old_store
         CobaContext.learning_info.clear()
 
 
 def monitor_e2e(case, learner, res):
-    want = [e for call in intended(case) for e in call]
+    ev_seed, exp, eff = e2e_seeds(case)
+    is_pmf = case["fmt"] in ("PM", "dPM")
+    if eff is None and is_pmf:
+        # no seed anywhere: CobaRandom(None) is time-based - the draw itself is not determined; the action must still be offered
+        # and the probability the PMF's entry for it
+        if isinstance(res, Exception):
+            return [("SequentialCB.evaluate raised %s: %s" % (type(res).__name__, str(res)[:150]), "e2e-raises-" + type(res).__name__)]
+        rows = [r for call in case["calls"] for r in call]
+        for i, (out, r) in enumerate(zip(res, rows)):
+            idxs = [j for j, a in enumerate(r["actions"]) if same(dec(a), out.get("action"))]
+            if not idxs or not any(same(dec(r["pmf"][j]), out.get("probability")) for j in idxs):
+                return [("unseeded evaluation: recorded action %s / probability %s for interaction %d is not a member of the PMF %s over %s" % (
+                    short(out.get("action")), short(out.get("probability")), i, short([dec(x) for x in r["pmf"]]), short([dec(a) for a in r["actions"]])), "e2e-unseeded-pmf")]
+        return []
+    eff_int = None if eff is None else int(eff)
+    want = [e for call in intended(dict(case, seed=(1 if eff_int is None else eff_int))) for e in call]
+    if case.get("e2e_seed") and ev_seed is not None and is_pmf and not isinstance(res, Exception):
+        again = getattr(learner, "again", None)
+        key = lambda rs: [(short(o.get("action")), short(o.get("probability"))) for o in rs]
+        if isinstance(again, Exception) or again is None or key(again) != key(res):
+            return [("two SequentialCB(seed=%r) evaluations of the same environment and learner recorded different draws" % (ev_seed,), "e2e-seed-not-reproducible")]
     rows = [r for call in case["calls"] for r in call]
     name = "%s/%s%s" % (("not" if not case.get("batch") else case["layout"]), case["fmt"], "+kw" if case.get("kw") else "")
+    if case.get("e2e_seed"):
+        name += " SequentialCB(seed=%r), experiment_seed %s" % (ev_seed, exp)
     if isinstance(res, Exception):
         return [("%s: SequentialCB.evaluate raised %s: %s" % (name, type(res).__name__, str(res)[:150]), "e2e-raises-" + type(res).__name__)]
     if len(res) != len(rows):
@@ -730,6 +778,13 @@ def gen_case(rng, stress=0.3):
         # batch-awareness differs per method: predict native / learn per row, predict per row / learn native, same for score
         case["learn_batch"] = rng.chance(0.5)
         case["score_batch"] = rng.chance(0.5)
+    if case.get("e2e") and (fmt in ("PM", "dPM") and rng.chance(0.7) or rng.chance(0.1)):
+        # which seed takes effect in SequentialCB.evaluate: its own whenever it is not None (also 0, 0.0, False), else the experiment's
+        es = {"ev": rng.choice([{"i": 0}, {"i": 0}, {"f": [0, 1]}, {"b": False}, {"i": 1}, None, None, {"i": rng.randint(2, 40)}])}
+        exp = rng.choice(["unset", 0, 5, rng.randint(1, 40)])
+        if exp != "unset":
+            es["exp"] = exp
+        case["e2e_seed"] = es
     if rng.chance(0.12):
         # has_score / score error paths: no score attribute, the base class's NotImplementedError, an implemented score that raises
         case["score_kind"] = rng.choice(["absent", "base", ["raises", "AttributeError", "'Model' object has no attribute 'score'"],
@@ -939,6 +994,9 @@ class C15(Property):
     partial_theorems = {"format_roundtrip_pinned_partial": "the pinned commit violates the property in the regions of the recorded defects C15-F1..F4 "
                         "(excluded by the fx=Fixes.none disjuncts of firstRowOK / dictRowsOK / colParseOK and, for C15-F2, by the float-copy premise of "
                         "pmf_entry_fresh); format_roundtrip is the full-strength theorem for the code with fixes/C15-*.diff applied",
+                        "mixed_*_counterexample": "histories that switch ONE wrapper between batched and unbatched calls are not claimed (mixed_history_roundtrip is false: "
+                        "the layout/call style memoised on the first call is kept); the model mirrors the code there and is compared on generated mixed histories",
+                        "pyEq_scalar_equiv": "== is proved an equivalence on scalars only; for cached action sets cached_actions_equal needs no transitivity; nested values open; nan not in the model ((B) only)",
                         "history_roundtrip": "full strength for every Fixes value; for the model's dict = abc.Mapping reading it mirrors the code only once "
                         "fixes/C15-colhint-kwargs-mapping.diff (open finding C15-F5) is applied - until then (A) is skipped in that region"}
 
@@ -1047,6 +1105,8 @@ class C15(Property):
                 fails.append(F("B", what + "  [seed %s]" % case.get("seed"), sig))
             if not fails and case.get("e2e") and e2e_applicable(case):
                 tags.append("e2e")
+                if case.get("e2e_seed"):
+                    tags.append("e2e-seed:%s/%s" % (json.dumps(case["e2e_seed"].get("ev")), case["e2e_seed"].get("exp", "unset")))
                 l2, res = run_e2e(case)
                 for what, detail in monitor_e2e(case, l2, res):
                     fails.append(F("B", what + "  [seed %s]" % case.get("seed"), "general:%s/%s" % (name, detail)))
@@ -1342,6 +1402,19 @@ def corpus_cases():
                         calls.append([row(sets["str"], (ci + i) % 3, 10 * ci + i, pmf=[{"f": [1, 4]}, {"f": [1, 2]}, {"f": [1, 4]}]) for i in range(n)])
                     cs.append({"seed": 5, "fmt": fmt, "kw": True, "layout": layout, "batch": b0, "calls": calls,
                                "rewrap": {"who": who, "batch2": b2, "seed2": 9}})
+    # evaluator seed vs experiment seed (PMF draws through SequentialCB): every combination pinned
+    pm3 = [{"f": [1, 4]}, {"f": [1, 2]}, {"f": [1, 4]}]
+    for fmt in ("PM", "dPM"):
+        for mode in ("not", "single", "row", "col"):
+            for ev in ({"i": 0}, {"f": [0, 1]}, {"b": False}, {"i": 1}, None):
+                for exp in ("unset", 0, 5):
+                    n = 1 if mode == "not" else 2
+                    calls = [[row(sets["str"], (ci + i) % 3, 10 * ci + i, pmf=pm3) for i in range(n)] for ci in range(4)]
+                    es = {"ev": ev}
+                    if exp != "unset":
+                        es["exp"] = exp
+                    cs.append({"seed": 0 if ev is None else int(dec(ev)), "fmt": fmt, "kw": False, "layout": "single" if mode == "not" else mode,
+                               "batch": mode != "not", "e2e": True, "e2e_seed": es, "calls": calls})
     # phase 3: score kinds (has_score / score error paths), one wrapper switched between batched and unbatched calls, nan actions
     kinds = ["absent", "base", ["raises", "AttributeError", "'Model' object has no attribute 'score'"],
              ["raises", "AttributeError", "'NoneType' object has no attribute 'score_table'"], ["raises", "KeyError", "score_cache"],
